@@ -7,7 +7,10 @@ EXPLANATION = (
     "write() delegates the merge to a helper method self.<m>() whose result (or one element of it) becomes the region's end: there the "
     "returned local starts as the end of the first heap record (or as write()'s end, passed in), every later re-binding of it is "
     "max(end, .) or guarded by . > end (a tuple unpack of a popped record is not), a further record is popped only on paths that "
-    "established record-start <= merged end, and write() has not removed the record the helper starts from; "
+    "established record-start <= merged end, and write() has not removed the record the helper starts from; the same is decided when write() "
+    "does not unpack self.overwrites[0] at all but compares self.overwrites[0][0] in place with the end of the chunk and takes the whole region "
+    "from the helper (`(start, end) = self.<m>()`, the helper pops the first record too): then the start handed back is bound only from the "
+    "start of the first record of the heap, never from a later one (C39.14); "
     "(b) downloaded bytes are written to the temp file only at offset self.downloaded, only after the overwrite heap "
     "was consulted on that call (heap empty or its first region starts at/after the downloaded chunk), the partial "
     "write before a region is exactly the prefix data[:start-downloaded], skipping a region slices data by "
@@ -47,7 +50,9 @@ EXPLANATION = (
     "such a bound B); self.current_size is stored only by __init__ / overwrite / set_current_size; every store of self.download_size after "
     "__init__ is min(self.download_size, .) or guarded by . < self.download_size; a waiting reader leaves self.milestones only by a heappop "
     "in _update_downloaded / download_done. "
-    "Undecided: whether a record pushed onto the heap outside overwrite() / write() denotes bytes the client really wrote; whether a store "
+    "Undecided: a write() that reads the first record in yet another way (start bound from self.overwrites[0][0] to a plain local, the "
+    "region popped by write() itself without an unpack of self.overwrites[0], a helper that returns something else than locals) gives "
+    "ANALYSIS-ERROR; whether a record pushed onto the heap outside overwrite() / write() denotes bytes the client really wrote; whether a store "
     "that lowers download_size outside set_current_size stops the download too early; a heap handed to code outside the class "
     "(ANALYSIS-ERROR); removals hidden behind setattr / __dict__; byte-level results of arbitrary histories, heap ordering (heapq), interleavings with the reactor; liveness "
     "(a milestone that is never released, an overwrite region that is not merged / a milestone not extended over it, a download "
@@ -112,6 +117,24 @@ def _heap_top_reads(n, heap):
             if isinstance(x, ast.Subscript) and isinstance(x.ctx, ast.Load) and attr_path(x.value) == heap \
                     and isinstance(x.slice, ast.Constant) and x.slice.value == 0:
                 out.append(x)
+    return out
+
+
+def _direct_exams(cfg, fnorm, nd_forms, heap="self.overwrites"):
+    """Test nodes that compare the start of the first heap record, read in place (`heap[0][0]`), with the end of the
+    delivered chunk (one of the normal forms `nd_forms`), in either direction."""
+    top_s = norm_src("%s[0][0]" % heap)
+    out = []
+    for n in cfg.nodes:
+        if n.kind != "test" or not _heap_top_reads(n, heap):
+            continue
+        for (_d, lab) in cfg.successors(n):
+            if not isinstance(lab, tuple):
+                continue
+            f = fnorm.edge_fact(n, lab)
+            if any(_le_fact(f, top_s, x) is not None or _le_fact(f, x, top_s) is not None for x in nd_forms):
+                out.append(n)
+                break
     return out
 
 
@@ -403,7 +426,11 @@ def _bound_arg(call, H, pname):
 
 def _popped_between(g, a, b):
     """Over the non-exceptional paths of CFG g from node a to node b: does the code in between change the overwrite heap?
-    -> True (on every path), False (on none), None (on some)."""
+    -> True (on every path), False (on none), None (on some).  `a` may be a list of nodes (the verdicts must agree)."""
+    if isinstance(a, (list, tuple)):
+        got = {_popped_between(g, x, b) for x in a}
+        return got.pop() if len(got) == 1 else None
+
     def tr(x, lab, y, st):
         if lab == "exc" or (x is b):
             return None
@@ -559,6 +586,89 @@ def _check_merge_helper(r, caller, call_node, call, H, comp, caller_end, caller_
                             % (H.name, HEAP, EH, bad[0][1].brief()), bad[0][1])
                 break
     return analysed
+
+
+def _check_helper_start(r, caller, call_node, call, H, comp, caller_start, exam_nodes):
+    """Helper method H hands back (as element `comp` of its result) the start of the region that `caller` then protects: the
+    heap is ordered by start, so the merged region starts where the first record starts.  Decide that the returned local is
+    bound only from element 0 of the first record (heap[0] / the first heappop on every path), and that the caller has not
+    removed that record itself."""
+    hg = H.cfg()
+    tuple_names = {x for n in hg.stmt_nodes() for x in node_stores(n)
+                   if isinstance(n.ast, ast.Assign) and isinstance(n.ast.targets[0], (ast.Tuple, ast.List)) and "." not in x and "[" not in x}
+    pre = FlowNorm(H, keep=tuple_names)
+    rets = hg.find(is_return)
+    if not rets:
+        r.violation(H, H.loc(), "%s() hands no region back to %s()" % (H.name, caller.name))
+        return
+    names = set()
+    for rn in rets:
+        v = rn.ast.value
+        if isinstance(v, ast.Name):
+            v = pre.resolve(rn, v)
+        v = v.elts[comp] if isinstance(v, (ast.Tuple, ast.List)) and len(v.elts) > comp else None
+        if not isinstance(v, ast.Name):
+            raise AnalysisError("%s(): the region start handed back to %s() (%s) is not a local; cannot be decided"
+                                % (H.name, caller.name, src(H, rn.ast)))
+        names.add(v.id)
+    if len(names) != 1:
+        raise AnalysisError("%s(): different locals (%s) are returned as the region's start" % (H.name, sorted(names)))
+    SH = names.pop()
+    if SH in H.params:
+        a = _bound_arg(call, H, SH)
+        r.site(H, None, "start := parameter %s" % SH)
+        r.require(a is not None and attr_path(a) == caller_start, caller, caller.loc(call_node.ast),
+                  "%s() hands back its argument `%s` as the region's start, which %s() does not bind to the start `%s` of the record it "
+                  "examined" % (H.name, SH, caller.name, caller_start))
+    # heap state on arrival at each node: has a record been removed since H was entered?
+    vis, par = explore(hg, False, lambda x, lab, y, st: None if lab == "exc" else (st or (x.kind not in ("entry", "exit", "raise") and _mutates_heap(x))))
+    caller_popped = _popped_between(caller.cfg(), exam_nodes, call_node)
+    rdh = C.reaching_defs(hg)
+    n_defs = 0
+    for n in hg.stmt_nodes() + [x for x in hg.nodes if x.kind in ("iter", "with", "except")]:
+        b = _binding(n, SH)
+        if b is None:
+            continue
+        n_defs += 1
+        r.site(H, n.ast, "region start := %s" % src(H, n.ast))
+        why = "the prefix of the downloaded chunk that write() puts in front of the region then covers bytes of the first pending overwrite " \
+              "(or stops short of it)"
+        if b[0] == "other" or (SH in H.params):
+            r.violation(H, H.loc(n.ast), "%s() re-binds the start `%s` of the region it hands back (%s): %s" % (H.name, SH, src(H, n.ast), why))
+            continue
+        v = b[1]
+        rv = pre.resolve(n, v) if isinstance(v, ast.Name) else v
+        if b[0] == "elt":
+            from_rec, which = (_is_heap_top(rv) or _is_heap_pop(rv)), b[2]
+        else:
+            from_rec = isinstance(rv, ast.Subscript) and isinstance(rv.slice, ast.Constant) and isinstance(rv.slice.value, int) and \
+                (_is_heap_top(rv.value) or _is_heap_pop(rv.value) or
+                 (isinstance(rv.value, ast.Name) and (_is_heap_top(pre.resolve(n, rv.value)) or _is_heap_pop(pre.resolve(n, rv.value)))))
+            which = rv.slice.value if from_rec else None
+        if not from_rec:
+            raise AnalysisError("%s(): the region's start is bound from %s, not from a record of %s; cannot be decided" % (H.name, src(H, n.ast), HEAP))
+        r.require(which == 0, H, H.loc(n.ast), "%s(): the start `%s` of the region handed back is element %s of the heap record, not its start: %s"
+                  % (H.name, SH, which, why))
+        # the node(s) at which the record itself was read (`rec = heappop(..)` ... `start, end = rec`)
+        carrier = v if isinstance(v, ast.Name) else (rv.value if b[0] == "expr" and isinstance(rv.value, ast.Name) else None)
+        origin = [n.id]
+        if carrier is not None:
+            origin = sorted(rdh.get(n.id, {}).get(carrier.id, frozenset()), key=str)
+            if not origin or not all(isinstance(d, int) and 0 <= d < len(hg.nodes) for d in origin):
+                raise AnalysisError("%s(): where the record `%s` was read cannot be decided" % (H.name, carrier.id))
+        later = sorted((nid, st) for (nid, st) in vis if nid in origin and st)
+        r.count(len(vis))
+        if later:
+            r.violation(H, H.loc(n.ast), "%s() takes the start `%s` of the region it hands back from a record that is not the first one of %s "
+                        "(records were already removed when `%s` runs): the merged region starts where its first record starts; %s (path: %s)"
+                        % (H.name, SH, HEAP, src(H, n.ast), why, witness(hg, par, later[0]).brief()), witness(hg, par, later[0]))
+        if caller_popped is None:
+            raise AnalysisError("%s(): the first overwrite record is removed on some paths to the call of %s() only; cannot be decided"
+                                % (caller.name, H.name))
+        r.require(not caller_popped, caller, caller.loc(call_node.ast), "%s() changes %s between comparing its first record with the chunk and "
+                  "calling %s(), which takes the region's start from the first record again" % (caller.name, HEAP, H.name))
+    if not n_defs and SH not in H.params:
+        raise AnalysisError("%s(): the region start `%s` is never bound" % (H.name, SH))
 
 
 # ---------------------------------------------------------------- who may take records out of a heap
@@ -911,11 +1021,38 @@ def run(ctx: Context):
         return s in (ND, want_nd)
     OC = idx.cls(CLS)
     tops = _heap_top_unpack(W, cfg)
-    if not tops:
-        raise AnchorVanished("write(): the unpack of self.overwrites[0] (the region the downloaded chunk is compared with) was not found")
-    # outer unpack = the one whose names are re-used by the merge loop; merge unpack binds other names
-    outer = tops[0]
-    start_v, end_v = outer[1], outer[2]
+    # the nodes at which write() compares the start of the first pending record with the end of the chunk: the unpack
+    # `(start, end) = self.overwrites[0]` whose start is then tested, or a test that reads self.overwrites[0][0] itself
+    direct_exams = _direct_exams(cfg, fnorm, (ND, want_nd))
+    if tops:
+        # outer unpack = the one whose names are re-used by the merge loop; merge unpack binds other names
+        outer = tops[0]
+        start_v, end_v = outer[1], outer[2]
+        exam_nodes = [outer[0]]
+    else:
+        # write() names the region only when it takes it off the heap: `(start, end) = self.<helper>()`, the helper pops the
+        # first record (and what it merges with it) and hands the region back - followed through the call graph
+        binds = []
+        for n in cfg.stmt_nodes():
+            a = n.ast
+            if isinstance(a, ast.Assign) and len(a.targets) == 1 and isinstance(a.targets[0], ast.Tuple) and len(a.targets[0].elts) == 2 \
+                    and all(isinstance(t, ast.Name) for t in a.targets[0].elts):
+                v = fnorm.resolve(n, a.value) if isinstance(a.value, ast.Name) else a.value
+                hm = _self_method_call(v, OC)
+                if hm is not None and not isinstance(hm.node, ast.Lambda) and \
+                        any(_mutates_heap(x) or _heap_top_reads(x, HEAP) for x in hm.cfg().nodes if x.kind not in ("entry", "exit", "raise")):
+                    binds.append((n, a.targets[0].elts[0].id, a.targets[0].elts[1].id))
+        if not binds or not direct_exams:
+            raise AnchorVanished("write(): the unpack of self.overwrites[0] (the region the downloaded chunk is compared with) was not found, "
+                                 "nor a test of self.overwrites[0][0] against the end of the chunk followed by `(start, end) = self.<helper>()`")
+        if len({(b[1], b[2]) for b in binds}) != 1 or binds[0][1] == binds[0][2]:
+            raise AnalysisError("write(): the region taken off %s is bound to different locals (%s); cannot be decided"
+                                % (HEAP, sorted({(b[1], b[2]) for b in binds})))
+        outer = (None, binds[0][1], binds[0][2])
+        start_v, end_v = outer[1], outer[2]
+        exam_nodes = list(direct_exams)
+    TOP_S = norm_src("%s[0][0]" % HEAP)
+    START_FORMS = (start_v, TOP_S) if tops else (TOP_S,)
     merges = [t for t in tops[1:] if t[2] != end_v]
     # the merge of consecutive records may be done by a helper method whose result becomes the region's end
     delegated = {}
@@ -989,7 +1126,32 @@ def run(ctx: Context):
                 continue
             (_n, call, H, comp) = delegated[n.id]
             r.site(W, n.ast, "merged by %s()" % H.name)
-            merge_helpers += [h for h in _check_merge_helper(r, W, n, call, H, comp, end_v, outer[0], OC) if h not in merge_helpers]
+            merge_helpers += [h for h in _check_merge_helper(r, W, n, call, H, comp, end_v, exam_nodes, OC) if h not in merge_helpers]
+
+    # -- (a'') the start of a region that a helper hands back -----------------------
+    with ctx.rule("C39.14", "R1", "write(): when a helper method hands back the start of the region as well (`(start, end) = self.<m>()`), "
+                  "that start is the start of the first record of the heap - the one write() compared with the chunk -, bound once and "
+                  "never re-bound while further records are merged", expected=1) as r:
+        n14 = 0
+        rdw = C.reaching_defs(cfg)
+
+        def start_used(dn):
+            for x in cfg.nodes:
+                if x.kind in ("entry", "exit", "raise") or dn.id not in rdw.get(x.id, {}).get(start_v, frozenset()):
+                    continue
+                if any(isinstance(y, ast.Name) and y.id == start_v and isinstance(y.ctx, ast.Load) for e in node_exprs(x) for y in own_nodes(e)):
+                    return True
+            return False
+        for (_n, call, H, comp) in [delegated[k] for k in sorted(delegated)]:
+            b0 = _binding(_n, start_v)
+            if b0 is None or not start_used(_n):
+                continue
+            n14 += 1
+            if b0[0] != "elt" or b0[2] == comp:
+                raise AnalysisError("write(): `%s` - how the region's start is bound cannot be decided" % src(W, _n.ast))
+            _check_helper_start(r, W, _n, call, H, b0[2], start_v, exam_nodes)
+        if not n14:
+            r.site(W, outer[0].ast if outer[0] is not None else None, "start read in write() from the first record (decided by C39.2 / C39.12)")
 
     # -- (b) downloaded data placement --------------------------------------
     with ctx.rule("C39.2", "R1", "write(): downloaded bytes go to offset self.downloaded, after consulting the overwrite "
@@ -1033,7 +1195,7 @@ def run(ctx: Context):
                         return True
                     if f[0] == "false" and f[1] in ("self.overwrites", "len(self.overwrites)"):
                         return True
-                    return f[0] == "<=" and f[2] == start_v and is_nd(f[1])
+                    return f[0] == "<=" and f[2] in START_FORMS and is_nd(f[1])
                 for (t, w) in find_path_avoiding(cfg, lambda x, _n=n: x is _n, gate_edge=consulted):
                     r.violation(W, W.loc(n.ast), "downloaded data written without consulting the overwrite heap on this call "
                                 "(path: %s)" % w.brief(), w)
@@ -1358,6 +1520,11 @@ def run(ctx: Context):
             if vn == p0:
                 continue
             oke = bool(ot) and vn == ot[0][2]
+            if bool(ot) and not oke and isinstance(v, ast.Call) and call_name(v) == "max" and not v.keywords and v.args \
+                    and not any(isinstance(a_, ast.Starred) for a_ in v.args):
+                # max(milestone, end): the milestone local itself / new_downloaded / the end of the first region
+                forms = [norm_plain(a_) for a_ in v.args]
+                oke = ot[0][2] in forms and all(x in (MS, p0, ot[0][2]) for x in forms)
             r.require(oke, U, U.loc(n.ast), "milestone := %s is neither new_downloaded nor the end of the first overwrite region" % vn)
             if oke:
                 def covers(t, lab, _s=ot[0][1]):
@@ -1465,15 +1632,37 @@ def run(ctx: Context):
                             return True
                         if isinstance(c.func, ast.Attribute) and attr_path(c.func.value) == _h and c.func.attr in ("pop", "clear", "remove"):
                             return True
+                        if _h == HEAP and any(_self_method_call(c, OC) is h for h in merge_helpers):
+                            return True         # the merge helper takes records off the heap
                     return False
 
                 def nonempty(t, lab, _h=heap):
                     return _nonempty_fact(hn.edge_fact(t, lab), _h)
+                # a merge helper is entered with the heap known non-empty when every call of it in write() is: then only a
+                # read after the helper's own removals needs a fresh test
+                entered_nonempty = False
+                if any(fn is h for h in merge_helpers):
+                    wn_ = FlowNorm(W)
+                    hcalls = [x for x in cfg.nodes if x.kind not in ("entry", "exit", "raise")
+                              and any(_self_method_call(c, OC) is fn for c in node_calls(x))]
+                    (bad_, badrefs_, total_) = callers_outside(idx, fn.name, [W.qual])
+                    ncalls_ = sum(1 for x in hcalls for c in node_calls(x) if _self_method_call(c, OC) is fn)
+                    entered_nonempty = bool(hcalls) and not bad_ and not badrefs_ and total_ == ncalls_ \
+                        and not any(find_path_avoiding(cfg, lambda x, _c=hc: x is _c, kill=popped,
+                                                       gate_edge=lambda t, lab, _h=heap: _nonempty_fact(wn_.edge_fact(t, lab), _h)) for hc in hcalls)
                 for n in g.nodes:
                     if not _heap_top_reads(n, heap):
                         continue
                     r.site(fn, n.ast, "%s[0]" % heap)
-                    for (t, w) in find_path_avoiding(g, lambda x, _n=n: x is _n, gate_edge=nonempty, kill=popped):
+                    if entered_nonempty:
+                        found = []
+                        for k in [x for x in g.nodes if x.kind not in ("entry", "exit", "raise") and popped(x)]:
+                            for (d, lab) in g.successors(k):
+                                if lab != "exc" and not found:
+                                    found = find_path_avoiding(g, lambda x, _n=n: x is _n, gate_edge=nonempty, kill=popped, start=d)
+                    else:
+                        found = find_path_avoiding(g, lambda x, _n=n: x is _n, gate_edge=nonempty, kill=popped)
+                    for (t, w) in found:
                         r.violation(fn, fn.loc(n.ast), "%s[0] is read although the heap can be empty here (IndexError: the download "
                                     "consumer fails in the middle of a chunk) (path: %s)" % (heap, w.brief()), w)
         U = idx.func(CLS + "._update_downloaded")
@@ -1915,6 +2104,9 @@ def run(ctx: Context):
                 return _le_fact(f, s, ND) is not None or _le_fact(f, s, want_nd) is not None
             return _le_fact(f, s, end_v) is not None
 
+        def direct_ok(f):
+            return bool(f) and (_le_fact(f, TOP_S, ND) is not None or _le_fact(f, TOP_S, want_nd) is not None)
+
         def tr_g(n, lab, nxt, st):
             if lab == "exc":
                 return None
@@ -1929,11 +2121,13 @@ def run(ctx: Context):
                 return (-1, False)
             if k >= 0 and not held and guard_ok(k, fnorm.edge_fact(n, lab)):
                 held = True
+            if not held and direct_ok(fnorm.edge_fact(n, lab)):
+                held = True         # the first record's start, read in place, lies before the end of the chunk
             return (k, held)
         vis_g, par_g = explore(cfg, (-1, False), tr_g)
         r.count(len(vis_g))
         for P in takes:
-            if not _heap_pops(P) and _popped_between(cfg, outer[0], P) is not False:
+            if not _heap_pops(P) and _popped_between(cfg, exam_nodes, P) is not False:
                 continue        # the helper merges the records that follow the one write() popped: its pops are decided by C39.10
             r.site(W, P.ast, "taken after examination")
             bad = sorted((nid, st) for (nid, st) in vis_g if nid == P.id and not st[1])
@@ -1955,7 +2149,7 @@ def run(ctx: Context):
         push12 = [n for n in cfg.stmt_nodes() if any(call_tail(c) == "heappush" and len(c.args) == 2 and attr_path(c.args[0]) == HEAP
                                                      and isinstance(c.args[1], ast.Tuple) and len(c.args[1].elts) == 2
                                                      and attr_path(c.args[1].elts[1]) == end_v for c in node_calls(n))]
-        next_turn = [t[0] for t in tops if t[2] == end_v]
+        next_turn = [t[0] for t in tops if t[2] == end_v] + [x for x in direct_exams if not any(x is t[0] for t in tops)]
         for P in takes:
             r.site(W, P.ast, "taken record accounted for")
 
